@@ -398,7 +398,7 @@ def rand_depfile(rnd: random.Random) -> T.List[str]:
             if j:
                 line += rnd.choice([' ', '  ', ' \\\n', ' \\\n  '])
             line += dep_escape(t, rnd)
-        line += rnd.choice(['', '', '', '', '', ' ', '  ']) + ':'
+        line += (rnd.choice([' ', '  ']) if rnd.random() < 0.03 else '') + ':'
         first = True
         for d in deps:
             r = rnd.random()
@@ -406,7 +406,7 @@ def rand_depfile(rnd: random.Random) -> T.List[str]:
                 sep = rnd.choice([' ', ' ', '', '  ', ' \\\n '])
             elif r < 0.6:
                 sep = rnd.choice([' ', '  '])
-            elif r < 0.95:
+            elif r < 0.985:
                 sep = rnd.choice([' \\\n ', ' \\\n  ', ' \\\n', '\\\n ', ' \\\n \\\n '])
             else:
                 sep = '\\\n'
